@@ -232,6 +232,12 @@ func zzC11Table() {
 		// in flight: never armed under a running POST, armed when idle
 		vAssert(sA.refs == refsA, "C11.request-leaves-POST-count-balanced")
 		vAssert(gtA.armed == (refsA == 0), "C11.idle-timer-armed-iff-no-POST-in-flight")
+		if len(env.served) == 0 || env.served[0] != sA.transport {
+			// a request that was not served by session A (refused, unknown, addressed elsewhere) is not activity of A:
+			// it neither stops nor re-arms A's idle timer, so it cannot keep A alive past its deadline
+			vAssert(len(gtA.resets) == 0 && gtA.stops == 0, "C11.refused-request-is-not-session-activity")
+			vReach("not-activity")
+		}
 		vReach("timer-checked")
 	}
 	if sB != nil && sid != "B" {
